@@ -24,6 +24,19 @@ def _is_sym(a):
     return isinstance(a, np.ndarray) and a.dtype == object
 
 
+def _is_key(a):
+    """a JAX array with a PRNG-key dtype (cannot be converted to NumPy; stays a JAX array, always concrete)"""
+    try:
+        import jax
+        return isinstance(a, jax.Array) and jax.dtypes.issubdtype(a.dtype, jax.dtypes.prng_key)
+    except Exception:  # noqa: BLE001
+        return False
+
+
+def _concrete(o):
+    return o if _is_key(o) else np.asarray(o)
+
+
 def to_obj(a):
     """numeric array -> object array of exact sympy numbers"""
     a = np.asarray(a)
@@ -261,7 +274,7 @@ class Evaluator:
             return env[v]
 
         for v, c in zip(jaxpr.constvars, consts):
-            env[v] = np.asarray(c)
+            env[v] = _concrete(c)
         assert len(jaxpr.invars) == len(args), (len(jaxpr.invars), len(args))
         for v, a in zip(jaxpr.invars, args):
             env[v] = a
@@ -302,9 +315,11 @@ class Evaluator:
             return self._scan(p, invals)
         if name == "while":
             return self._while(p, invals)
+        if name.startswith("opaque_"):
+            return _eval_opaque(name, invals[0])
         if not symbolic:
-            out = eqn.primitive.bind(*[jax.numpy.asarray(a) for a in invals], **p)
-            return [np.asarray(o) for o in out] if eqn.primitive.multiple_results else np.asarray(out)
+            out = eqn.primitive.bind(*[a if _is_key(a) else jax.numpy.asarray(a) for a in invals], **p)
+            return [_concrete(o) for o in out] if eqn.primitive.multiple_results else _concrete(out)
         # ---- element-wise
         if name in _UNARY:
             return _ew(_UNARY[name], invals[0])
@@ -522,3 +537,40 @@ def symbols(shape, name, **assump):
     for i in range(n):
         a[i] = sp.Symbol(f"{name}{i}" if n > 1 or shape != () else name, **assump)
     return a.reshape(shape)
+
+
+# ---------------------------------------------------------------------------------------------- uninterpreted functions
+_OPAQUE = {}
+
+
+def opaque(name, scalar_out=False):
+    """a JAX-traceable *uninterpreted* function: a primitive with an abstract-evaluation rule only.  make_jaxpr records it as an
+    equation; Engine J evaluates it as sympy Function applications  name_j(all input entries)  (one per output entry), so that
+    an identity proved with it holds for every function of that shape (e.g. every potential-energy gradient)."""
+    import jax
+    from jax.extend.core import Primitive
+    if name in _OPAQUE:
+        return _OPAQUE[name][0]
+    prim = Primitive(f"opaque_{name}")
+
+    def abstract(x):
+        from jax.core import ShapedArray
+        return ShapedArray(() if scalar_out else x.shape, x.dtype)
+    prim.def_abstract_eval(abstract)
+
+    def call(x):
+        return prim.bind(jax.numpy.asarray(x))
+    _OPAQUE[name] = (call, scalar_out)
+    return call
+
+
+def _eval_opaque(name, x):
+    base = name[len("opaque_"):]
+    scalar_out = _OPAQUE[base][1]
+    xs = [sp.expand(e) for e in to_obj(x).ravel()]
+    if scalar_out:
+        return np.array(sp.Function(base, real=True)(*xs), dtype=object)
+    out = np.empty(len(xs), dtype=object)
+    for j in range(len(xs)):
+        out[j] = sp.Function(f"{base}{j}", real=True)(*xs)
+    return out.reshape(np.shape(x))
